@@ -197,6 +197,11 @@ pub struct PolicySpec {
     pub groups: Vec<Vec<(u16, Vec<u16>)>>,
     /// rendering choices (association, parentheses, spacing, via-parse)
     pub shape: u64,
+    /// `*` operands inside the expression (0 = none): low two bits 1 = `&& *` added to a clause,
+    /// 2 = `|| *` added to the alternatives of one dimension (the factor becomes neutral),
+    /// 3 = `|| *` added at top level (the whole policy is a broadcast); the other bits pick the place
+    #[serde(default)]
+    pub stars: u8,
 }
 
 /// A structure as policies see it: dimension name, ordered?, attribute names (rank order).
@@ -209,7 +214,9 @@ pub fn view_of(spec: &StructSpec) -> View {
         .collect()
 }
 
-/// Resolved policy at name level.
+/// Resolved policy at name level. A factor with no name stands for a `*` operand of the
+/// conjunction; a factor whose names include "*" is a disjunction with a `*` alternative. Both are
+/// neutral in the clause (Boolean reading: `*` is true).
 #[derive(Clone, Debug, Serialize, Deserialize, Hash, PartialEq, Eq)]
 pub struct RPolicy {
     pub broadcast: bool,
@@ -255,11 +262,40 @@ impl PolicySpec {
         if groups.is_empty() {
             return RPolicy { broadcast: true, groups: vec![], shape: self.shape };
         }
-        RPolicy { broadcast: false, groups, shape: self.shape }
+        let mut rp = RPolicy { broadcast: false, groups, shape: self.shape };
+        rp.add_stars(self.stars);
+        rp
+    }
+
+    /// the same policy without `*` operands
+    pub fn without_stars(&self) -> Self {
+        Self { stars: 0, ..self.clone() }
     }
 }
 
 impl RPolicy {
+    /// Insert `*` operands (never at index 0 of a clause or of a name list, which the invalid-name
+    /// injection of the driver addresses).
+    pub fn add_stars(&mut self, stars: u8) {
+        if self.broadcast || self.groups.is_empty() || stars & 3 == 0 {
+            return;
+        }
+        let place = (stars >> 2) as usize;
+        let gi = place % self.groups.len();
+        match stars & 3 {
+            1 => self.groups[gi].push((String::new(), vec![])),
+            2 => {
+                let fi = (place / self.groups.len()) % self.groups[gi].len();
+                if !self.groups[gi][fi].1.is_empty() {
+                    self.groups[gi][fi].1.push("*".into());
+                }
+            }
+            _ => self.groups.push(vec![(String::new(), vec![])]),
+        }
+    }
+    pub fn has_stars(&self) -> bool {
+        self.groups.iter().any(|g| g.iter().any(|(_, ns)| is_star_factor(ns)))
+    }
     pub fn broadcast() -> Self {
         RPolicy { broadcast: true, groups: vec![], shape: 0 }
     }
@@ -290,6 +326,9 @@ impl RPolicy {
         for g in &self.groups {
             let mut acc: Vec<Conj> = vec![vec![]];
             for (d, names) in g {
+                if is_star_factor(names) {
+                    continue;
+                }
                 let mut next = vec![];
                 for c in &acc {
                     for n in names {
@@ -308,11 +347,15 @@ impl RPolicy {
                 }
             }
         }
+        // `X || *` is `*` (the operators simplify it the same way)
+        if out.iter().any(|c| c.is_empty()) {
+            return vec![vec![]];
+        }
         out
     }
 
     pub fn parse_safe(&self) -> bool {
-        self.groups.iter().all(|g| g.iter().all(|(d, ns)| parse_safe(d) && ns.iter().all(|n| parse_safe(n))))
+        self.groups.iter().all(|g| g.iter().all(|(d, ns)| ns.is_empty() || (parse_safe(d) && ns.iter().all(|n| n == "*" || parse_safe(n)))))
     }
 
     /// Build the AST directly (no parser involved), with association chosen by `shape`.
@@ -328,7 +371,7 @@ impl RPolicy {
                 let ors: Vec<AccessPolicy> = g
                     .iter()
                     .map(|(d, names)| {
-                        let terms: Vec<AccessPolicy> = names.iter().map(|n| AccessPolicy::Term(qa(d, n))).collect();
+                        let terms: Vec<AccessPolicy> = names.iter().map(|n| if n == "*" { AccessPolicy::Broadcast } else { AccessPolicy::Term(qa(d, n)) }).collect();
                         fold_assoc(terms, false, &mut bits)
                     })
                     .collect();
@@ -350,7 +393,11 @@ impl RPolicy {
     /// The policy object handed to the API: through the parser when possible and chosen by the
     /// shape, directly as an AST otherwise.
     pub fn to_policy(&self) -> Result<(AccessPolicy, bool), String> {
-        let via_parse = self.parse_safe() && (self.shape & 1 == 1);
+        // `*` inside an expression is only defined by the `&` / `|` operators of the API
+        // (identity for AND, absorbing for OR); the documented string grammar has no such form
+        // and raw enum nesting of `Broadcast` is not simplified, so such policies are always
+        // built with the operators
+        let via_parse = self.parse_safe() && (self.shape & 1 == 1) && !self.has_stars();
         if via_parse {
             let s = self.to_string_with_shape();
             match std::panic::catch_unwind(|| AccessPolicy::parse(&s)) {
@@ -361,6 +408,9 @@ impl RPolicy {
                     Err(format!("parse of generated policy '{s}' panicked at {loc}: {msg}"))
                 }
             }
+        } else if self.shape & 2 == 2 || self.has_stars() {
+            // built with the `&` / `|` operators of the API instead of the enum constructors
+            Ok((with_operators(&self.to_ast()), false))
         } else {
             Ok((self.to_ast(), false))
         }
@@ -375,10 +425,13 @@ impl RPolicy {
             .map(|g| {
                 g.iter()
                     .map(|(d, ns)| {
-                        if ns.len() == 1 {
-                            format!("{d}::{}", ns[0])
+                        let one = |n: &String| if n == "*" { "*".to_string() } else { format!("{d}::{n}") };
+                        if ns.is_empty() {
+                            "*".to_string()
+                        } else if ns.len() == 1 {
+                            one(&ns[0])
                         } else {
-                            format!("({})", ns.iter().map(|n| format!("{d}::{n}")).collect::<Vec<_>>().join(" || "))
+                            format!("({})", ns.iter().map(one).collect::<Vec<_>>().join(" || "))
                         }
                     })
                     .collect::<Vec<_>>()
@@ -386,6 +439,19 @@ impl RPolicy {
             })
             .collect::<Vec<_>>()
             .join(" || ")
+    }
+}
+
+pub fn is_star_factor(names: &[String]) -> bool {
+    names.is_empty() || names.iter().any(|n| n == "*")
+}
+
+/// Rebuild a policy bottom-up with the `BitAnd` / `BitOr` operators.
+pub fn with_operators(p: &AccessPolicy) -> AccessPolicy {
+    match p {
+        AccessPolicy::Conjunction(a, b) => with_operators(a) & with_operators(b),
+        AccessPolicy::Disjunction(a, b) => with_operators(a) | with_operators(b),
+        x => x.clone(),
     }
 }
 
@@ -455,8 +521,9 @@ pub fn policy_spec(max_groups: usize, max_dims: usize, max_alts: usize) -> impl 
         prop::bool::weighted(0.06),
         proptest::collection::vec(group, 1..=max_groups),
         any::<u64>(),
+        prop_oneof![4 => Just(0u8), 1 => any::<u8>()],
     )
-        .prop_map(|(broadcast, groups, shape)| PolicySpec { broadcast, groups, shape })
+        .prop_map(|(broadcast, groups, shape, stars)| PolicySpec { broadcast, groups, shape, stars })
 }
 
 // ------------------------------------------------------------------ name-level cover relation
